@@ -333,6 +333,16 @@ func (g *seqGen) memoHunt(rounds int) {
 			{Fn: "seed", S: hxs(s), P: hxs(""), Keep: true},
 			{Fn: "seed", S: hxs("mnemonic"), P: hxs(s), Keep: true},
 			{Fn: "seed", S: hxs(""), P: hxs("mnemonic" + s), Keep: true},
+			// an unsupported value that equals the language after truncation to 8, 16 or 32 bits
+			// (a memo keyed by a narrowed language), before and after the language itself
+			{Fn: "chk", L: int64(l) + []int64{1 << 8, 1 << 16, 1 << 32, -(1 << 8)}[k%4], S: hxs(s)},
+			{Fn: "chk", L: int64(l), S: hxs(s)},
+			{Fn: "val", L: int64(l) + []int64{1 << 16, 1 << 32, -(1 << 8), 1 << 8}[k%4], S: hxs(s)},
+			{Fn: "enc", L: int64(l) + []int64{1 << 32, -(1 << 8), 1 << 8, 1 << 16}[k%4], E: hx(ent), Keep: true},
+			{Fn: "enc", L: int64(l), E: hx(ent), Keep: true},
+			{Fn: "chk", L: int64(l), S: hxs(strings.Join(bad, " "))},
+			{Fn: "chk", L: int64(l) + []int64{1 << 8, 1 << 16, 1 << 32, -(1 << 8)}[k%4], S: hxs(strings.Join(bad, " "))},
+			{Fn: "chk", L: int64(l), S: hxs(strings.Join(bad, " "))},
 			// the same unsupported Language value in a generating call and then in a check
 			{Fn: "chk", L: int64(70 + k), S: hxs("legal winner thank year wave sausage worth useful legal winner thank yellow")},
 			{Fn: "enc", L: int64(70 + k), E: hx(ent), Keep: true},
@@ -865,7 +875,7 @@ func checkC13(e *Env) {
 	e.WriteEvidence("exploration", map[string]any{
 		"evaluations":                      totalOps,
 		"distinct_nontrivial":              dist.Len(),
-		"rule":                             "cases are call sequences executed in one fresh process each: (a) every ordered pair of first-used languages (10x10; thorough 13x13 incl. -1, 10, 100, three first-call kinds, two repetitions) followed by probe calls on all ten languages; (a') ten kinds of failing or unsupported first calls, each followed by first use of every language; (a'') memo-hunting patterns (a string accepted under one language asked under another, the same words in another spelling, a near miss right after a hit, the same entropy under another language, identical and almost identical seed arguments, scripted sources replayed under another language); (a3) the same calls again after the process was idle for 1.1 s and 2.1 s with garbage collections in between; (a4) 20 to 2500 (thorough 12000) distinct calls of one kind, then the same calls again and once more in reverse order (bounded caches that wrap or evict); (a5) one call repeated 70 000 (thorough 300 000) times in a row — 300 times for seeds and scripted NewMnemonic — and then calls of all functions; (b) seeded random sequences of 100-300 calls (one call in five is repeated immediately, then followed by different ones) over all six functions, ten languages and unsupported values, with failing calls, repeated inputs far apart, caller-owned entropy buffers reused across calls, and NewMnemonic on scripted and default sources; every result is compared with the history-free reference model and with the same call executed alone as the first call of another fresh process (all deterministic calls in quick; one in eight of the random sequences' calls in thorough); (c) a few sequences of 4000 (thorough 20000) calls; (d) NewMnemonic over one scripted source that stays installed across calls, reports transient errors during some of them and then works again; (e) a small pool of calls of all functions repeated by 8-16 goroutines from a cold start, every observation compared with the same call executed alone; entropy buffers are re-inspected after every call and at the end, and every retained result is re-read (digest) at the end of its sequence; non-trivial = every call with history; distinct = distinct calls (function, arguments)",
+		"rule":                             "cases are call sequences executed in one fresh process each: (a) every ordered pair of first-used languages (10x10; thorough 13x13 incl. -1, 10, 100, three first-call kinds, two repetitions) followed by probe calls on all ten languages; (a') ten kinds of failing or unsupported first calls, each followed by first use of every language; (a'') memo-hunting patterns (a string accepted under one language asked under another, under an unsupported value that aliases a language after truncation to 8/16/32 bits and then under that language, the same words in another spelling, a near miss right after a hit, the same entropy under another language, identical and almost identical seed arguments, scripted sources replayed under another language); (a3) the same calls again after the process was idle for 1.1 s and 2.1 s with garbage collections in between; (a4) 20 to 2500 (thorough 12000) distinct calls of one kind, then the same calls again and once more in reverse order (bounded caches that wrap or evict); (a5) one call repeated 70 000 (thorough 300 000) times in a row — 300 times for seeds and scripted NewMnemonic — and then calls of all functions; (b) seeded random sequences of 100-300 calls (one call in five is repeated immediately, then followed by different ones) over all six functions, ten languages and unsupported values, with failing calls, repeated inputs far apart, caller-owned entropy buffers reused across calls, and NewMnemonic on scripted and default sources; every result is compared with the history-free reference model and with the same call executed alone as the first call of another fresh process (all deterministic calls in quick; one in eight of the random sequences' calls in thorough); (c) a few sequences of 4000 (thorough 20000) calls; (d) NewMnemonic over one scripted source that stays installed across calls, reports transient errors during some of them and then works again; (e) a small pool of calls of all functions repeated by 8-16 goroutines from a cold start, every observation compared with the same call executed alone; entropy buffers are re-inspected after every call and at the end, and every retained result is re-read (digest) at the end of its sequence; non-trivial = every call with history; distinct = distinct calls (function, arguments)",
 		"samples":                          smp.List(),
 		"ordered_first_use_pairs_covered":  pairs.Len(),
 		"ordered_first_use_pairs_possible": wantPairs,
